@@ -130,6 +130,10 @@ def run(ctx):
                 ctx.violation(R_PEND, key + "|manufactured-pending", "Pending is returned on a path on which no upstream reported Pending in this call: no waker was "
                               "registered by anyone, so the async driver is never re-polled", b.loc(pb), {"path_blocks": b.find_path(0, {pb}, avoid=P)})
 
+    R_END = ctx.rule("C11.endsrc", "Ended is returned only after the upstreams named by the impl's own `type CanEnd` (pass-through: that one; And: all; Or: one) reported Ended in this call", floor=15)
+    endsrc_rule(ctx, c, impls, R_END)
+    R_LATCH = ctx.rule("C11.latch", "a combinator declared FusedPull over a possibly unfused upstream latches the upstream's Ended in its own state on every path", floor=2)
+    latch_rule(ctx, c, impls, R_LATCH)
     # ---- fuse
     R_FUSE = ctx.rule("C11.fuse", "Fuse: the upstream is pulled only under the not-yet-ended test, and every Ended from upstream resets the stored upstream before returning", floor=1)
     found = False
@@ -208,3 +212,362 @@ def takepend_rule(ctx, crate, rid, adts, desc_crate):
         for nm, bbs in sorted(by.items()):
             ctx.violation(rid, "%s|taken-then-pending:%s" % (key, nm), "`%s` was taken out of the adaptor's state and is dropped on a path that returns Pending: the buffered value is lost when the "
                           "downstream is not ready (the re-poll finds the state empty)" % nm, b.loc(bbs[0]), {"function": b.def_path, "drop_blocks": bbs})
+
+
+# ----------------------------------------------------------------------------- endsrc / latch (type-derived rules)
+
+def _norm_projs(projs):
+    out = []
+    for pr in projs:
+        if pr.startswith("."):
+            out.append("." + pr[1:].split(":")[0])
+        elif pr.startswith("@"):
+            out.append(pr)
+    return tuple(out)
+
+
+def upstream_of_results(body, crate):
+    """(local, normalised projection prefix) -> upstream type parameter name whose pull() result lives there"""
+    m = {}
+    for bb, t in body.calls():
+        f = t.get("f")
+        if not f or not isinstance(t.get("dst"), int):
+            continue
+        if (f.get("trait"), f["name"]) == ("dfir_pipes::pull::Pull", "pull"):
+            m[(t["dst"], ())] = f.get("self") or "?"
+        elif f["name"] in ("unwrap_or_else", "or_else", "map_or_else"):
+            for a in t["a"][1:]:
+                p = op_place(a)
+                if isinstance(p, int) and body.locals[p].startswith("closure#"):
+                    cb = crate.bodies.get(body.locals[p][8:])
+                    if cb is None:
+                        continue
+                    for _bb, t2 in cb.calls():
+                        f2 = t2.get("f")
+                        if f2 and (f2.get("trait"), f2["name"]) == ("dfir_pipes::pull::Pull", "pull") and t2.get("dst") == 0:
+                            m[(t["dst"], ())] = f2.get("self") or "?"
+    changed = True
+    while changed:
+        changed = False
+        for bb, i, lhs, rv in body.assignments():
+            if not isinstance(lhs, int):
+                continue
+            if rv["k"] == "use" and "mv" in rv["ops"][0]:
+                p = rv["ops"][0]["mv"]
+                k = (pl_local(p), _norm_projs(pl_projs(p)))
+                for (l, pre), u in list(m.items()):
+                    if l == k[0] and pre[:len(k[1])] == k[1]:
+                        nk = (lhs, pre[len(k[1]):])
+                        if nk not in m:
+                            m[nk] = u
+                            changed = True
+            elif rv["k"] == "agg" and rv["agg"] == "tuple":
+                for idx, o in enumerate(rv["ops"]):
+                    p = op_place(o)
+                    if isinstance(p, int) and "mv" in o:
+                        for (l, pre), u in list(m.items()):
+                            if l == p:
+                                nk = (lhs, (".%d" % idx,) + pre)
+                                if nk not in m:
+                                    m[nk] = u
+                                    changed = True
+    return m
+
+
+def variant_edges_by_place(body, variant):
+    """(local, normalised projs) of the switched-on place -> set of target blocks of the `variant` edge"""
+    out = {}
+    cands = {}
+    for sb in range(body.n):
+        if body.is_cleanup(sb):
+            continue
+        ts = body.term(sb)
+        if ts["k"] != "switch":
+            continue
+        dp = op_place(ts["d"])
+        if not isinstance(dp, int):
+            continue
+        for db, idx, rv in body.defs_of(dp):
+            if idx == "term" or rv["k"] != "discr":
+                continue
+            p = rv["p"]
+            variants = {v: n for v, n in (rv.get("variants") or [])}
+            tg = [tgt for val, tgt in ts["ts"] if variants.get(val) == variant]
+            rest = [n for v, n in variants.items() if v not in [x for x, _ in ts["ts"]]]
+            if rest == [variant]:
+                tg.append(ts["o"])
+            other = set(tgt for val, tgt in ts["ts"] if variants.get(val) != variant)
+            if rest and rest != [variant]:
+                other.add(ts["o"])
+            tg = [t0 for t0 in tg if t0 not in other]
+            cands.setdefault((pl_local(p), _norm_projs(pl_projs(p))), []).append((sb, tg))
+    for key, lst in cands.items():
+        blocks = [sb for sb, _ in lst]
+        for sb, tg in lst:
+            # switches reachable from an earlier switch on the same place are drop-elaboration ladders
+            later = any(o != sb and sb in body.reachable(start=o) and o not in body.reachable(start=sb) for o in blocks)
+            if not later:
+                out.setdefault(key, set()).update(tg)
+    return out
+
+
+def ended_blocks(body):
+    out = []
+    for bb, t in body.calls():
+        f = t.get("f")
+        if f and f["name"] == "ended" and "PullStep" in (f.get("impl_self") or f["def"]) and not body.is_cleanup(bb):
+            out.append(bb)
+    for bb, i, lhs, rv in body.assignments():
+        if rv["k"] == "agg" and (rv.get("adt") or {}).get("variant") == "Ended" and "PullStep" in (rv.get("adt") or {}).get("def", "") and not body.is_cleanup(bb):
+            out.append(bb)
+    return sorted(set(out))
+
+
+def can_end_requirements(imp):
+    """from the impl's `type CanEnd`: ('all', [params]) for pass-through / And, ('any', [params]) for Or, None for unconstrained"""
+    import hydrotypes as H
+    ty = None
+    for it in imp["items"]:
+        if it["name"] == "CanEnd" and it.get("ty"):
+            ty = H.parse(it["ty"])
+    if ty is None:
+        return None
+
+    def canend_param(n):
+        if n[0] == "proj" and n[3] == "CanEnd" and n[1][0] == "path" and not n[1][2]:
+            return n[1][1]
+        return None
+    p = canend_param(ty)
+    if p and p in imp["generics"]:
+        return ("all", [p])
+    if ty[0] == "proj" and ty[3] in ("And", "Or") and H.last(ty[2][1]) == "Toggle":
+        a = canend_param(ty[1])
+        b = canend_param(ty[4][0]) if ty[4] else None
+        if a and b:
+            return ("all" if ty[3] == "And" else "any", [a, b])
+    return None
+
+
+ALLV = frozenset(["Ready", "Pending", "Ended"])
+
+
+def variant_states(body, keys):
+    """forward dataflow: for each tracked place key, the set of PullStep variants it may hold at block entry (refined by discriminant switches and
+    by is_pending()/is_ended()/is_ready() tests); returns dict bb -> {key: frozenset}"""
+    keys = set(keys)
+    locals_of = {}
+    for k in keys:
+        locals_of.setdefault(k[0], []).append(k)
+
+    def key_of_ref(local, depth=0):
+        """a local holding `&<key place>`"""
+        if depth > 4:
+            return None
+        for bb, idx, rv in body.defs_of(local):
+            if idx == "term":
+                continue
+            if rv["k"] in ("ref", "refmut"):
+                k = (pl_local(rv["p"]), _norm_projs(pl_projs(rv["p"])))
+                if k in keys:
+                    return k
+            if rv["k"] == "use":
+                p = op_place(rv["ops"][0])
+                if isinstance(p, int):
+                    r = key_of_ref(p, depth + 1)
+                    if r:
+                        return r
+        return None
+    tests = {}   # bool local -> (key, variant)
+    for bb, t in body.calls():
+        f = t.get("f")
+        if f and f["name"] in ("is_pending", "is_ended", "is_ready") and isinstance(t.get("dst"), int) and t["a"]:
+            p = op_place(t["a"][0])
+            if isinstance(p, int):
+                k = key_of_ref(p)
+                if k:
+                    tests[t["dst"]] = (k, {"is_pending": "Pending", "is_ended": "Ended", "is_ready": "Ready"}[f["name"]])
+
+    def transfer(bb, st):
+        st = dict(st)
+        for s_ in body.stmts(bb):
+            if "lhs" in s_ and isinstance(s_["lhs"], int):
+                for k in locals_of.get(s_["lhs"], []):
+                    st[k] = ALLV
+        t = body.term(bb)
+        outs = {}
+        if t["k"] == "call" and isinstance(t.get("dst"), int):
+            for k in locals_of.get(t["dst"], []):
+                st[k] = ALLV
+        if t["k"] == "switch":
+            dp = op_place(t["d"])
+            handled = False
+            if isinstance(dp, int):
+                if dp in tests:
+                    k, v = tests[dp]
+                    for val, tgt in t["ts"]:
+                        if val == 0:
+                            s2 = dict(st)
+                            s2[k] = st.get(k, ALLV) - {v}
+                            outs[tgt] = s2
+                    s2 = dict(st)
+                    s2[k] = st.get(k, ALLV) & {v}
+                    outs[t["o"]] = _join(outs.get(t["o"]), s2)
+                    handled = True
+                else:
+                    for db, idx, rv in body.defs_of(dp):
+                        if idx == "term" or rv["k"] != "discr":
+                            continue
+                        k = (pl_local(rv["p"]), _norm_projs(pl_projs(rv["p"])))
+                        if k not in keys:
+                            continue
+                        variants = {v: n for v, n in (rv.get("variants") or [])}
+                        taken = set()
+                        for val, tgt in t["ts"]:
+                            s2 = dict(st)
+                            s2[k] = st.get(k, ALLV) & {variants.get(val)}
+                            outs[tgt] = _join(outs.get(tgt), s2)
+                            taken.add(variants.get(val))
+                        s2 = dict(st)
+                        s2[k] = st.get(k, ALLV) - taken
+                        outs[t["o"]] = _join(outs.get(t["o"]), s2)
+                        handled = True
+                        break
+            if handled:
+                return {tgt: _freeze(s2) for tgt, s2 in outs.items() if all(v for v in s2.values())}
+        return {tgt: _freeze(st) for _lbl, tgt in body.succ_edges(bb)}
+
+    def _join(a, b_):
+        if a is None:
+            return b_
+        out = dict(a)
+        for k, v in b_.items():
+            out[k] = out.get(k, frozenset()) | v
+        return out
+
+    def _freeze(d):
+        return tuple(sorted((k, frozenset(v)) for k, v in d.items()))
+
+    def join(a, b_):
+        return _freeze(_join(dict(a), dict(b_)))
+    init = _freeze({k: ALLV for k in keys})
+    res = mir.forward_dataflow(body, init, lambda bb, st: transfer(bb, dict(st)), join)
+    return {bb: dict(st) for bb, st in res.items()}
+
+
+def _any_ended_on_all_incoming(b, states, ups, params, bb, depth):
+    """`Or` combinators: the Ended block is a join of several match arms; the disjunction 'some upstream is Ended' is checked per incoming path
+    (walk back over the join until every incoming state names an upstream that is exactly {Ended})"""
+    def cond(st):
+        return any(st.get(k) == frozenset(["Ended"]) for k, uu in ups.items() if uu in params)
+    st = states.get(bb)
+    if st is not None and cond(st):
+        return True
+    if depth == 0:
+        return False
+    preds = [p for p in b.preds(bb) if not b.is_cleanup(p) and p in states]
+    if not preds:
+        return False
+    for p in preds:
+        t = b.term(p)
+        if t["k"] == "switch":
+            # the refinement happens on the edge: recompute it from the switch
+            dp = op_place(t["d"])
+            ok = False
+            if isinstance(dp, int):
+                for db, idx, rv in b.defs_of(dp):
+                    if idx != "term" and rv["k"] == "discr":
+                        k = (pl_local(rv["p"]), _norm_projs(pl_projs(rv["p"])))
+                        variants = {v: n for v, n in (rv.get("variants") or [])}
+                        vals = [variants.get(val) for val, tgt in t["ts"] if tgt == bb]
+                        if t["o"] == bb:
+                            taken = set(variants.get(val) for val, _t in t["ts"])
+                            vals += [n for n in variants.values() if n not in taken]
+                        if k in ups and ups[k] in params and set(vals) == {"Ended"}:
+                            ok = True
+            if ok:
+                continue
+        if not _any_ended_on_all_incoming(b, states, ups, params, p, depth - 1):
+            return False
+    return True
+
+
+def endsrc_rule(ctx, c, impls, rid):
+    for imp in impls:
+        b = c.impl_method(imp, "pull")
+        req = can_end_requirements(imp)
+        if b is None or req is None:
+            continue
+        mode, params = req
+        key = "dfir_pipes|" + fn_key(c, b)
+        ups = upstream_of_results(b, c)
+        ebs = ended_blocks(b)
+        pull_blocks = [bb for bb, t in b.calls() if t.get("f") and ((t["f"].get("trait"), t["f"]["name"]) == ("dfir_pipes::pull::Pull", "pull") or isinstance(t.get("dst"), int) and (t["dst"], ()) in ups)]
+        after_pull = set()
+        for pb in pull_blocks:
+            after_pull |= b.reachable(start=pb)
+        states = variant_states(b, ups.keys()) if ebs else {}
+        ctx.inst(rid, key, nontrivial=bool(ebs), sites=len(ebs), sample={"CanEnd": mode + str(params), "ended_blocks": ebs, "upstream_result_places": sorted("%s%s=%s" % (k[0], "".join(k[1]), u) for k, u in ups.items())})
+        for eb in ebs:
+            if eb not in after_pull:
+                continue     # ended from the combinator's own latched state, no upstream was polled in this call
+            st = states.get(eb)
+            if st is None:
+                continue
+            have = [u for u in params if any(st.get(k) == frozenset(["Ended"]) for k, uu in ups.items() if uu == u)]
+            if mode == "any" and not have and _any_ended_on_all_incoming(b, states, ups, params, eb, 4):
+                continue
+            if (mode == "all" and len(have) < len(params)) or (mode == "any" and not have):
+                missing = [u for u in params if u not in have]
+                ctx.violation(rid, key + "|ended-without-upstream-end:" + ",".join(missing),
+                              "Ended is returned on a path that has not observed Ended from upstream %s in this call, although the combinator's own `type CanEnd` (%s of %s) says it can end only "
+                              "when %s ended: items still pending upstream would be lost" % (missing, "And" if mode == "all" and len(params) > 1 else mode, params,
+                                                                                             "all of them" if mode == "all" else "one of them"), b.loc(eb),
+                              {"variant_sets": {"%s%s" % (k[0], "".join(k[1])): sorted(v) for k, v in st.items()}})
+
+
+def latch_rule(ctx, c, impls, rid):
+    """impl FusedPull for X without requiring the upstream to be fused: every Ended coming from the upstream must be latched into self"""
+    import hydrotypes as H
+    fused = {}     # adt -> set of positions of type arguments required to be FusedPull
+    for i in c.impls_of_trait("pull::FusedPull"):
+        if i.get("self_adt"):
+            need = set(p["self"] for p in i["preds"] if p["k"] == "trait" and p["trait"].endswith("::FusedPull"))
+            n = H.parse(i["self"])
+            pos = set(k for k, a in enumerate(n[2]) if a is not None and a[0] == "path" and not a[2] and a[1] in need) if n[0] == "path" else set()
+            fused[i["self_adt"]] = pos
+    for imp in impls:
+        adt = imp.get("self_adt")
+        if adt not in fused:
+            continue
+        b = c.impl_method(imp, "pull")
+        if b is None:
+            continue
+        ups = upstream_of_results(b, c)
+        n = H.parse(imp["self"])
+        fused_names = set(a[1] for k, a in enumerate(n[2]) if k in fused[adt] and a is not None and a[0] == "path") if n[0] == "path" else set()
+        unfused = set(u for u in ups.values() if u not in fused_names and u in imp["generics"])
+        if not unfused:
+            continue
+        key = "dfir_pipes|" + fn_key(c, b)
+        edges = variant_edges_by_place(b, "Ended")
+        E = set()
+        for k, tg in edges.items():
+            if ups.get(k) in unfused:
+                E |= tg
+        writes = set()
+        for bb, i2, lhs, rv in b.assignments():
+            if not isinstance(lhs, int) and "*" in pl_projs(lhs) and not b.is_cleanup(bb):
+                writes.add(bb)
+        for bb, t in b.calls():
+            f = t.get("f")
+            if f and f["name"] in ("project_replace", "set", "take", "replace") and not b.is_cleanup(bb):
+                writes.add(bb)
+        rets = set(b.returns())
+        ctx.inst(rid, key, sites=len(E), sample={"unfused_upstreams": sorted(unfused), "ended_edge_targets": sorted(E), "state_write_blocks": sorted(writes)})
+        if not E:
+            ctx.anchor_missing(rid, "Ended edge of the unfused upstream in " + key)
+        for e in sorted(E):
+            ok, _ = b.all_paths_pass(writes, rets, start=e)
+            if not ok:
+                ctx.violation(rid, key + "|ended-not-latched", "the combinator is declared FusedPull without requiring its upstream %s to be fused, but after the upstream reported Ended a path "
+                              "returns without recording it in the combinator's own state: a later pull would poll the ended upstream again and may yield items after Ended" % sorted(unfused), b.loc(e))
